@@ -22,9 +22,9 @@ func main() {
 		n = 1200
 	}
 	vlib.ExecConformance(c, "C04", bins, vs, rand.New(rand.NewSource(vlib.Seed()+400)), n,
-		vlib.ExecMode{Faults: true, Sentinel: true, Panics: true, DirFaults: true, IntFaults: true, ArgFaults: true, Mutations: true, PlansPer: 6,
+		vlib.ExecMode{Faults: true, Sentinel: true, Devs: []vlib.DevStep{{Config: "GqlExecTraceDev.cfg", Key: vlib.LeafElemKey}}, Panics: true, DirFaults: true, IntFaults: true, ArgFaults: true, Mutations: true, PlansPer: 6,
 			// many concurrently failing siblings: exactly one error per failure is lost only in races
-			Corpus: vlib.StressCorpus("C04", 32),
+			Corpus:     vlib.StressCorpus("C04", 32),
 			Transports: []string{"tp:post", "tp:sse", "tp:mixed"}, TransportEvery: 5})
 	// second pass: through handler.Server + POST, with values whose marshaler panics while
 	// the response is serialized ("fails only that response with a well-formed error body")
@@ -42,11 +42,11 @@ func main() {
 		mp("C04h-m5", `mutation { m1 { boom } m2 { id } }`, map[string]ur.Outcome{"m1.boom": boom}),
 	}
 	vlib.ExecConformance(c, "C04h", bins, vs, rand.New(rand.NewSource(vlib.Seed()+401)), n/2,
-		vlib.ExecMode{Faults: true, Sentinel: true, Panics: true, DirFaults: true, ArgFaults: true, HTTP: true, PlansPer: 4, Corpus: corpus})
+		vlib.ExecMode{Faults: true, Sentinel: true, Devs: []vlib.DevStep{{Config: "GqlExecTraceDev.cfg", Key: vlib.LeafElemKey}}, Panics: true, DirFaults: true, ArgFaults: true, HTTP: true, PlansPer: 4, Corpus: corpus})
 	// third pass: subscription events (each event of the stream is completed like a query
 	// result; a fault while resolving one event's sub-selection affects that response only)
 	vlib.ExecConformance(c, "C04s", bins, vs, rand.New(rand.NewSource(vlib.Seed()+402)), n/3,
-		vlib.ExecMode{Faults: true, Sentinel: true, Panics: true, DirFaults: true, Subs: true, PlansPer: 4,
+		vlib.ExecMode{Faults: true, Sentinel: true, Devs: []vlib.DevStep{{Config: "GqlSubTraceDev.cfg", Key: vlib.LeafElemKey}}, Panics: true, DirFaults: true, Subs: true, PlansPer: 4,
 			Module: "GqlSubTrace", Config: "GqlSubTrace.cfg", Lines: vlib.SubTraceLines,
 			// subscriptions over server-sent events: one `next` event per response
 			Transports: []string{"tp:sse"}, TransportEvery: 3})
